@@ -73,6 +73,12 @@ def compat_detail(v, F):
             return f"{s} = {c} admits {p.text} = {c.allows(p)}, reference {want}"
     return None
 
+def d47_matcher(known, case):
+    """D47: the printed text is a wildcard after a post-release segment ('==2.0.post1.*', '!=1!1.post1.*'): poetry-core's own
+    extension of the wildcard syntax (pinned by its tests), not a PEP 440 specifier"""
+    import re
+    return known.get("matcher") == "post_release_wildcard_text" and bool(re.fullmatch(r"[!=]=.*\.post\d+\.\*", case.get("text") or ""))
+
 def run(tier):
     from poetry.core.constraints.version import Version
     R = common.Run("C15", tier)
@@ -106,7 +112,7 @@ def run(tier):
         R.count("reference_syntax_cases")
         if fr != [True]:
             c, how = seen[s]
-            R.fail(dict(a=c.a, b=c.b if how != "parse" else None, op=how), f"text {s!r} is not accepted by the reference specifier parser")
+            R.fail(dict(a=c.a, b=c.b if how != "parse" else None, op=how, text=s), f"text {s!r} is not accepted by the reference specifier parser", d47_matcher)
     # model tie for printing: the C05 correspondence compares str() of every result; here parsed text
     mreq, midx = [], []
     for c in cases:
